@@ -247,7 +247,32 @@ def load_corpus(pid):
     return cases
 
 
+class _RepoShared:
+    """Several workers share /repo while the framework is being built: `tools/seed_run.py` holds this lock
+    exclusively while a seeded patch is applied; ordinary check runs hold it shared (no-op when uncontended)."""
+
+    def __enter__(self):
+        self.f = None
+        if os.environ.get("VERIF_REPO_LOCK_HELD") == "1":
+            return
+        try:
+            self.f = open("/tmp/verif-repo.lock", "a+")
+            fcntl.flock(self.f, fcntl.LOCK_SH)
+        except OSError:
+            self.f = None
+
+    def __exit__(self, *a):
+        if self.f:
+            fcntl.flock(self.f, fcntl.LOCK_UN)
+            self.f.close()
+
+
 def run_check(mod, tier, seed, replay=None):
+    with _RepoShared():
+        return _run_check(mod, tier, seed, replay)
+
+
+def _run_check(mod, tier, seed, replay=None):
     t0 = time.time()
     pid = mod.PID
     use_repo()
